@@ -79,6 +79,16 @@ def run(ctx):
             v["what"] = "%s: %s header line %r" % (v["clause"], r.get("side"), bytes(r["in"]))
     ctx.violations += hbad
     ft += ht; fd += hd
+    # repeated fields combined: one name k times under different spellings, every tuple of value lengths of a lattice, and k up to 70: spec/HdrRepeat.tla
+    RL = 6 if q else 8
+    rshards = [["lat", RL, i, n] for i in range(n)] + [["many", 0, 1]]
+    rt, rd, rbad, _ = vlib.pattern_f(ctx, "san", "fn_hdrrep", rshards, "HdrRepeatRows", "HdrRepeatRows.cfg", xmx="4g")
+    for v in rbad:
+        r = v.get("row") or {}
+        if isinstance(r, dict) and "lens" in r:
+            v["what"] = "%s: %s header repeated with value lengths %s%s: reported %r" % (v["clause"], r.get("side"), r.get("lens"), " (another field in between)" if r.get("pad") else "", bytes(r.get("value", [])))
+    ctx.violations += rbad
+    ft += rt; fd += rd
     vac = None if total >= len(scns) else "judged %d rows for %d generated exchanges" % (total, len(scns))
     if ld < 8 * 15 ** la * 0.9:
         vac = "request-line rows: %d distinct < %d declared" % (ld, 8 * 15 ** la)
@@ -86,7 +96,7 @@ def run(ctx):
         vac = "status-line rows: %d distinct < %d declared" % (sd, 20 ** la)
     if hd < 2 * 6 * 11 ** la * 0.9:
         vac = "header-line rows: %d distinct < %d declared" % (hd, 2 * 6 * 11 ** la)
-    if fd - ld - sd - hd < 5 ** cl:
+    if fd - ld - sd - hd - rd < 5 ** cl:
         vac = "request-field rows: %d distinct < %d declared" % (fd, 5 ** cl)
     vlib.finish(ctx, "model_checking", {
         "model_acceptance": acc,
@@ -97,6 +107,8 @@ def run(ctx):
         "status_lines": "every sequence of <= %d atoms from 20 (protocol spellings, status texts 200 404 0200 99 1000 20x, reasons, SP TAB FF NUL) as the first response line: taken as a status line iff spec/ResLine.tla "
                         "LooksLikeStatusLine; protocol, status, reason, protocol number, status number = ParseStatusLine; components tile the line" % la,
         "header_lines": "every line = one of 6 first atoms + <= %d atoms from {X Y-z : SP TAB NUL @ VT v 'a b' ::} as the only header of a request and of a response: name, value, UNPARSEABLE, INVALID = spec/HdrLine.tla" % la,
+        "repeated_fields": "one field name occurring k times under 4 spellings, request and response: every tuple of 2..4 value lengths in 0..%d (with and without another field in between) and k = 5..70 "
+                           "occurrences in 4 length patterns (crossing the cap of 64 combinations): one table entry, first spelling, values joined with ', ' in order = spec/HdrRepeat.tla Combined" % RL,
         "request_fields": "every Cookie value of length <= %d over {a b = ; SP}; Authorization = 9 scheme spellings x every sequence of <= %d atoms from 19 (base64 groups with and without ':', padding, junk, "
                           "username=, quotes, escapes); random values; cookies in order, credentials, auth type, HTP_AUTH_INVALID, stream failure judged against spec/ReqFields.tla" % (cl, al),
         "rule": "exchanges = HtpWire!Exchange(i, n) for %d consecutive indices x n in 1..%d pipelined messages (one production choice per component with co-prime strides: 6 methods, 7 targets incl. absolute "
